@@ -1,7 +1,8 @@
 """C12 - estimates are a deterministic function of the arguments.
 
  R1 RNG discipline: every randomness source reachable from the entry points takes its seed / generator from the model's
-    seed setting (no global numpy / stdlib random state, no unseeded sample / bootstrap / default_rng, no clock or uuid);
+    seed setting (no global numpy / stdlib random state, no unseeded sample / bootstrap / default_rng / distribution.rvs, no clock
+    or uuid);
  R2 get_estimates binds a freshly constructed model and results handler on every path before any use;
  R3 no order-sensitive consumption of an unordered set (hash-seed dependence) in reachable code;
  R4 caller-owned arguments of the entry points are not mutated in place (a second run with the same objects would
